@@ -2368,3 +2368,39 @@ func init() {
 			}
 		}})
 }
+
+func init() {
+	register(&Rule{ID: "GC.resp", Min: 1, Text: "a client is told what to collect only together with what it must apply first: in package packs, the store of the minimum version vector (the result of Database.UpdateMinVersionVector) into ServerPack.VersionVector is unreachable on the edge where the request's mode is push-only (it is guarded by a comparison of PushPullOptions.Mode with SyncModePushOnly that excludes it). The client applies the changes of a response before it collects with the response's vector; a push-only response has no changes, and a change the client has not pulled yet may anchor on a tombstone the vector already covers",
+		Run: func(x *Ctx) {
+			vvF := x.P.Field("server/packs.ServerPack.VersionVector")
+			modeF := x.P.Field("server/packs.PushPullOptions.Mode")
+			upd := x.P.IfaceMethod(dbPkg + ".Database.UpdateMinVersionVector")
+			pushOnly, okC := x.constInt("api/types.SyncModePushOnly")
+			if vvF == nil || modeF == nil || upd == nil || !okC {
+				x.C.Unresolved(x.id(), "ServerPack.VersionVector / PushPullOptions.Mode / Database.UpdateMinVersionVector / types.SyncModePushOnly")
+				return
+			}
+			notPushOnly := []Cmp{{L: vpField(modeF), R: vpConst(pushOnly), Want: NE}}
+			n := 0
+			for _, fn := range x.P.FuncsIn("server/packs") {
+				for i, st := range storesTo(fn, vvF) {
+					fromMin := prog.Reaches(st.Val, func(w ssa.Value) bool {
+						ex, ok := w.(*ssa.Extract)
+						if !ok {
+							return false
+						}
+						c, isC := ex.Tuple.(*ssa.Call)
+						return isC && sameFunc(prog.CallObj(c), upd)
+					})
+					if !fromMin {
+						continue
+					}
+					n++
+					x.guardedSite(fmt.Sprintf("func=%s min-vector-store#%d not-for-push-only", prog.FnName(fn), i+1), st, notPushOnly, nil)
+				}
+			}
+			if n < 1 {
+				x.C.Vacuous(x.id()+" stores of the minimum vector into a response", n, 1)
+			}
+		}})
+}
